@@ -112,3 +112,105 @@ Proof.
     repeat split. rewrite repeat_length. lia.
   - unfold fuel_upto. unfold Zlen. lia.
 Qed.
+
+(* ================================================================ emitRow *)
+
+Ltac wstep1 := rewrite ?mbind_ret_l, ?sbind_norm, ?mbind_ret_l', ?sbind_norm', ?mbind_write',
+                ?sbind_ok, ?mbind_ok', ?mbind_pre_w, ?sbind_pre_w, ?lift_pure_ok; cbv beta iota zeta.
+Ltac wstep := repeat progress wstep1.
+
+Definition sep_field (c : bytes) : bytes := csv_escape c ++ [COMMA].
+
+(* first loop: i counts the fields written with a trailing separator; k more to go *)
+Definition row_inv1 {L' R} (cells : list vcell) (k : nat) (i : Z) (ws : wlist) (o : fres (ctl Z L' R)) : Prop :=
+  exists j : nat, i = Z.of_nat j /\ (j + k = length cells - 1)%nat
+    /\ ws = checked (map sep_field (firstn k (skipn j (row_texts cells))))
+    /\ o = Done (Ok (Norm (Z.of_nat (length cells - 1)))).
+
+(* padding loop: k empty fields to go *)
+Definition row_inv2 {L' R} (n : nat) (k : nat) (i : Z) (ws : wlist) (o : fres (ctl Z L' R)) : Prop :=
+  i = Z.of_nat n - Z.of_nat k /\ ws = repeat ([COMMA; DQ; DQ], true) k /\ o = Done (Ok (Norm (Z.of_nat n))).
+
+Lemma nth_error_row_texts cells j c : nth_error cells j = Some c -> nth_error (row_texts cells) j = Some (vc_text c).
+Proof. intros H. unfold row_texts. rewrite nth_error_map, H. reflexivity. Qed.
+
+Definition of_model (r : res (list bytes)) : M unit :=
+  match r with
+  | Ok ws => (checked ws, Done (Ok tt))
+  | Err => ([], Done Err)
+  | Panic => ([], Done Panic)
+  end.
+
+Theorem src_emitRow_is_model : forall n cells,
+  src_emitRow (Z.of_nat n) cells = of_model (csv_emit_row n (row_texts cells)).
+Proof.
+  intros n cells. unfold src_emitRow, csv_emit_row. cbv zeta.
+  assert (Hlen : length (row_texts cells) = length cells) by apply map_length.
+  rewrite Hlen. set (m := length cells) in *.
+  assert (HZ : Zlen cells = Z.of_nat m) by reflexivity. rewrite HZ.
+  destruct (n <? m)%nat eqn:E.
+  { apply Nat.ltb_lt in E. assert (H : (Z.of_nat n <? Z.of_nat m) = true) by (apply Z.ltb_lt; lia).
+    rewrite H. reflexivity. }
+  apply Nat.ltb_ge in E. assert (H : (Z.of_nat n <? Z.of_nat m) = false) by (apply Z.ltb_ge; lia).
+  rewrite H. clear H. wstep. unfold for_loop.
+  erewrite (iterate_rule _ (row_inv1 cells)) with (n := (m - 1)%nat)
+    (ws := checked (map sep_field (firstn (m - 1) (row_texts cells))))
+    (o := Done (Ok (Norm (Z.of_nat (m - 1))))).
+  2:{ (* leaving the first loop *)
+    intros i ws o (j & -> & Hj & -> & ->) k. unfold loop_iter.
+    assert (H : (Z.of_nat j <? Z.of_nat m - 1) = false) by (apply Z.ltb_ge; lia).
+    rewrite H. wstep. rewrite Nat.add_0_r in Hj. rewrite Hj. reflexivity. }
+  2:{ (* one trip of the first loop *)
+    intros k i ws o (j & -> & Hj & -> & ->). unfold loop_iter.
+    assert (H : (Z.of_nat j <? Z.of_nat m - 1) = true) by (apply Z.ltb_lt; lia).
+    rewrite H. wstep.
+    destruct (idx_lt cells j ltac:(lia)) as (c & _ & Hc).
+    rewrite (index_nat cells j c Hc). wstep. rewrite src_csvEscape_is_model. wstep.
+    exists [(sep_field (vc_text c), true)], (Z.of_nat (S j)), (checked (map sep_field (firstn k (skipn (S j) (row_texts cells))))).
+    split; [left; replace (Z.of_nat (S j)) with (Z.of_nat j + 1) by lia; reflexivity|].
+    split.
+    - rewrite (skipn_nth _ _ _ (nth_error_row_texts _ _ _ Hc)). reflexivity.
+    - exists (S j). repeat split; lia. }
+  2:{ exists 0%nat. repeat split; try lia. }
+  2:{ unfold fuel_upto. lia. }
+  wstep.
+  (* the last field (or the first padding field of a row without cells) *)
+  match goal with |- context [sbind (if Z.of_nat m >? 0 then ?A else ?B) ?K] =>
+    assert (Hmid : exists w2 i2,
+      (if (0 <? m)%nat
+       then bind (idx (row_texts cells) (m - 1)) (fun c => Ok ([csv_escape c], m))
+       else if (0 <? n)%nat then Ok ([[DQ; DQ]], 1%nat) else Ok ([], 0%nat)) = Ok (w2, i2)
+      /\ (i2 <= n)%nat
+      /\ sbind (if Z.of_nat m >? 0 then A else B) K = pre_w (checked w2) (K (Z.of_nat i2)))
+  end.
+  { destruct (0 <? m)%nat eqn:E0.
+    - apply Nat.ltb_lt in E0. assert (H : (Z.of_nat m >? 0) = true) by (apply Z.gtb_lt; lia).
+      destruct (idx_lt cells (m - 1)%nat ltac:(fold m; lia)) as (c & _ & Hc).
+      exists [csv_escape (vc_text c)], m. split; [|split; [lia|]].
+      + unfold idx. rewrite (nth_error_row_texts _ _ _ Hc). reflexivity.
+      + rewrite H, (index_nat cells _ c Hc). wstep. rewrite src_csvEscape_is_model. wstep.
+        replace (Z.of_nat (m - 1) + 1) with (Z.of_nat m) by lia. reflexivity.
+    - apply Nat.ltb_ge in E0. assert (Hm : m = 0%nat) by lia. rewrite Hm. cbn [Z.of_nat Nat.sub].
+      change (0 >? 0) with false. cbv iota.
+      destruct (0 <? n)%nat eqn:E1.
+      + apply Nat.ltb_lt in E1. assert (H : (Z.of_nat n >? 0) = true) by (apply Z.gtb_lt; lia).
+        exists [[DQ; DQ]], 1%nat. split; [reflexivity|]. split; [lia|]. rewrite H. wstep. reflexivity.
+      + apply Nat.ltb_ge in E1. assert (H : (Z.of_nat n >? 0) = false) by (rewrite Z.gtb_ltb; apply Z.ltb_ge; lia).
+        exists [], 0%nat. split; [reflexivity|]. split; [lia|]. rewrite H. wstep. rewrite pre_w_nil. reflexivity. }
+  destruct Hmid as (w2 & i2 & Hmodel & Hi2 & Hsrc). rewrite Hmodel. cbn [bind]. cbv beta iota.
+  rewrite Hsrc. unfold for_loop.
+  erewrite (iterate_rule _ (row_inv2 n)) with (n := (n - i2)%nat)
+    (ws := repeat ([COMMA; DQ; DQ], true) (n - i2)) (o := Done (Ok (Norm (Z.of_nat n)))).
+  2:{ intros i ws o (-> & -> & ->) k. unfold loop_iter. rewrite Z.sub_0_r, Z.ltb_irrefl. wstep. reflexivity. }
+  2:{ intros k i ws o (-> & -> & ->). unfold loop_iter.
+      assert (H : (Z.of_nat n - Z.of_nat (S k) <? Z.of_nat n) = true) by (apply Z.ltb_lt; lia).
+      rewrite H. wstep.
+      exists [([COMMA; DQ; DQ], true)], (Z.of_nat n - Z.of_nat k), (repeat ([COMMA; DQ; DQ], true) k).
+      split; [left; replace (Z.of_nat n - Z.of_nat k) with (Z.of_nat n - Z.of_nat (S k) + 1) by lia; reflexivity|].
+      split; [reflexivity|]. repeat split. }
+  2:{ repeat split. lia. }
+  2:{ unfold fuel_upto. lia. }
+  wstep. unfold fn_body. wstep.
+  unfold of_model, pre_w, ret. cbn [fst snd].
+  rewrite !checked_app, checked_repeat, !app_nil_r. reflexivity.
+Qed.
